@@ -492,6 +492,7 @@ class ExploreResult:
         self.violations: Dict[str, Tuple[str, List[Any]]] = {}
         self.terminal_outcomes: set = set()
         self.maxima: Dict[str, int] = {}
+        self.sample: Any = None  # (history, event log) of the deepest state visited
 
 
 def explore(
@@ -547,6 +548,8 @@ def explore(
             fp = w.fingerprint()
             menu = w.enabled()
             key = (fp, dev) if level else fp
+            if res.sample is None or len(hist) > len(res.sample[0]):
+                res.sample = (list(hist), [tuple(e) for e in w.log][-40:])
             res.max_depth = max(res.max_depth, len(hist))
             for mk_, mv_ in w.metrics().items():
                 if mv_ > res.maxima.get(mk_, -1):
